@@ -131,22 +131,10 @@ def main() -> int:
     # an enum listing null, declared once and visited for several operations (path-item level, components/parameters)
     pjobs = []
     for le in (False, True):
-        for pi_, vals in enumerate([["asc", "desc"], [1, 2, 3], ["only"]]):
-            for version in ("3.0.3", "3.1.0"):
-                t = "string" if isinstance(vals[0], str) else "integer"
-                sch = {"type": [t, "null"], "enum": vals + [None]} if version.startswith("3.1") else {"type": t, "enum": vals + [None], "nullable": True}
-                d = docs.base_doc(version, "Shared Enum Parameters")
-                ok = {"200": {"description": "ok"}}
-                d["components"]["parameters"] = {"Order": {"name": "order", "in": "query", "schema": docs.clone(sch)}, "Mode": {"name": "mode", "in": "query", "schema": docs.clone(sch)}}  # (header / cookie stringification of union values is C03's finding)
-                PO, PM = {"$ref": "#/components/parameters/Order"}, {"$ref": "#/components/parameters/Mode"}
-                d["paths"] = {
-                    "/a": {"get": {"operationId": "a_get", "parameters": [PO], "responses": ok}, "post": {"operationId": "a_post", "parameters": [PO, PM], "responses": ok}},
-                    "/b": {"parameters": [{"name": "sort", "in": "query", "schema": docs.clone(sch)}], "get": {"operationId": "b_get", "responses": ok}, "put": {"operationId": "b_put", "parameters": [PM], "responses": ok},
-                           "delete": {"operationId": "b_delete", "responses": ok}},
-                    "/c": {"get": {"operationId": "c_get", "parameters": [PM, PO], "responses": ok}},
-                }
-                j = run.job(d, want=["manifest"], cfg={"literal_enums": le}, plan={"fn": "c14params", "args": {}})
-                pjobs.append((j, le, vals))
+        for label_, d in docs.shared_enum_param_docs():
+            vals = [v for v in d["components"]["schemas"]["Dir"]["enum"] if v is not None]
+            j = run.job(d, want=["manifest"], cfg={"literal_enums": le}, plan={"fn": "c14params", "args": {}})
+            pjobs.append((j, le, vals))
     for (j, le, vals), res in zip(pjobs, run.map([x[0] for x in pjobs], timeout=300)):
         style = "literal" if le else "enum"
         if res.get("_error") or (res.get("sandbox") or {}).get("_error") or res.get("plan_error") or res.get("exc"):
@@ -158,6 +146,14 @@ def main() -> int:
                 ev.count("sandbox_action_failed")
                 continue
             xx = a["x"]
+            if a["a"] == "endpoint_info":
+                # a null among the values makes the parameter nullable - on every use of the schema, not only the first
+                for p_ in ((x.get("sync_detailed") or {}).get("params") or []):
+                    if p_["name"] in (xx.get("null_listing") or []):
+                        ev.count("null_listing_parameter_signatures")
+                        if not p_.get("admits_none"):
+                            vd.violation(f"null_not_admitted:{style}:shared_parameter", f"{xx['case']}: parameter {p_['name']} lists null among its enum values but is annotated {p_.get('annotation')}", {"doc": j["doc"], "literal_enums": le, "operation": xx["case"]})
+                continue
             vr = x.get("sync_detailed") or {}
             seen_ops.add(xx["case"])
             ev.count("shared_parameter_calls")
@@ -178,6 +174,51 @@ def main() -> int:
         if len(seen_ops) < 6:
             vd.violation(f"silently_dropped:{style}:shared_parameter", f"only operations {sorted(seen_ops)} of 6 accept their null-listing enum parameter (diagnostics: {[x['header'] for x in res.get('diags') or []][:2]})", {"doc": j["doc"], "literal_enums": le})
         ev.seen(("C14p", style, len(vals), j["doc"]["openapi"]))
+    # enums with falsy members (0, "") as optional / required parameters in every location: a listed value is transmitted whatever its truth value
+    fjobs = []
+    for le in (False, True):
+        for vals in ([0, 1, 2], ["", "a", "b"], [0], ["0", "false", ""]):
+            t = "string" if isinstance(vals[0], str) else "integer"
+            d = docs.base_doc("3.0.3", "Falsy Enum Parameters")
+            d["components"]["schemas"] = {"Level": {"type": t, "enum": list(vals)}}
+            prm = lambda n_, loc_, req_, ref_: {"name": n_, "in": loc_, "required": req_, "schema": ({"$ref": "#/components/schemas/Level"} if ref_ else {"type": t, "enum": list(vals)})}  # noqa: E731
+            d["paths"] = {"/f1": {"get": {"operationId": "f_one", "parameters": [prm("level", "query", False, True), prm("X-Level", "header", False, True), prm("lvl", "cookie", False, False)], "responses": {"200": {"description": "ok"}}}},
+                          "/f2": {"get": {"operationId": "f_two", "parameters": [prm("level", "query", True, False), prm("X-Level", "header", True, False), prm("X-Other", "header", False, False)], "responses": {"200": {"description": "ok"}}}}}
+            j = run.job(d, want=["manifest"], cfg={"literal_enums": le}, plan={"fn": "c14params", "args": {"all_enums": True}})
+            fjobs.append((j, le, vals))
+    for (j, le, vals), res in zip(fjobs, run.map([x[0] for x in fjobs], timeout=300)):
+        style = "literal" if le else "enum"
+        if res.get("_error") or (res.get("sandbox") or {}).get("_error") or res.get("plan_error") or res.get("exc"):
+            ev.count("case_unusable")
+            continue
+        for a, x in actions_results(res):
+            if x.get("action_exc"):
+                ev.count("sandbox_action_failed")
+                continue
+            xx = a["x"]
+            if a["a"] == "endpoint_info":
+                continue
+            vr = x.get("sync_detailed") or {}
+            ev.count("falsy_member_parameter_calls")
+            w = {"doc": j["doc"], "literal_enums": le, "operation": xx["case"], "parameter": xx["param"], "value": xx["value"]}
+            reqs = vr.get("requests") or []
+            if vr.get("exc") and not reqs:
+                if xx["loc"] == "cookie" and not isinstance(xx["value"], str):
+                    continue  # (non-string cookie values: C03's listed finding)
+                vd.violation(f"listed_rejected:{style}:parameter:{xx['loc']}", f"{xx['case']}: passing the listed value {xx['value']!r} for {xx['param']} raised {vr['exc']['type']}: {vr['exc']['msg'][:100]}", w)
+                continue
+            if not reqs:
+                continue
+            c = reqs[0]
+            if xx["loc"] == "query":
+                sent = [q[1] for q in c["query"] if q[0] == xx["param"]]
+            elif xx["loc"] == "header":
+                sent = [h[1] for h in c["headers"] if h[0].lower() == xx["param"].lower()]
+            else:
+                sent = [p_.split("=", 1)[1] for h in c["headers"] if h[0].lower() == "cookie" for p_ in h[1].split("; ") if p_.split("=", 1)[0] == xx["param"]]
+            if len(sent) != 1 or not expect.spell_ok(xx["value"], sent[0]):
+                vd.violation(f"listed_not_reproduced:{style}:parameter:{xx['loc']}", f"{xx['case']}: listed value {xx['value']!r} for {xx['loc']} parameter {xx['param']} transmitted as {sent}", w)
+        ev.seen(("C14f", style, str(vals)))
     rs = run.map(jobs, timeout=300)
     for j, res in zip(jobs, rs):
         kind, le, cases = info[j["id"]]
